@@ -267,6 +267,44 @@ func RunWire(c *Ctx, goldenDir string) error {
 		})
 	}
 	// the data commitment depends on the ordered transaction list only
+	// every optional bytes field set or unset independently of the others (not only all at once): a decoder that
+	// couples two fields shows here
+	for mask := 0; mask < 1<<7; mask++ {
+		f := func(bit int) []byte {
+			if mask&(1<<bit) == 0 {
+				return nil
+			}
+			b := make([]byte, 32)
+			rng.Read(b)
+			return b
+		}
+		shape := fmt.Sprintf("fields/%07b", mask)
+		d := &types.Data{Txs: types.Txs{[]byte("tx")}, Metadata: &types.Metadata{ChainID: world.ChainID, Height: 5, Time: 6, LastDataHash: f(6)}}
+		h := types.Header{BaseHeader: types.BaseHeader{ChainID: world.ChainID, Height: 5, Time: 6}, Version: types.Version{Block: 1, App: 2},
+			LastHeaderHash: f(0), LastCommitHash: f(1), DataHash: d.DACommitment(), ConsensusHash: f(2), AppHash: f(3), LastResultsHash: f(4), ValidatorHash: f(5), ProposerAddress: w.PropAddr}
+		sh := &types.SignedHeader{Header: h, Signer: types.Signer{PubKey: w.PropPub, Address: w.PropAddr}}
+		sh.Signature = sign(&sh.Header)
+		guard("SignedHeader", shape, "binary", func() {
+			bz, err := sh.MarshalBinary()
+			nx := new(types.SignedHeader)
+			if err != nil || nx.UnmarshalBinary(bz) != nil {
+				emit("SignedHeader", shape, "binary", false, false, false, "err")
+				return
+			}
+			bz2, _ := nx.MarshalBinary()
+			emit("SignedHeader", shape, "binary", eqHeader(&nx.Header, &sh.Header) && bytes.Equal(bz, bz2), bytes.Equal(nx.Hash(), sh.Hash()), nx.ValidateBasic() == nil, "ok")
+		})
+		guard("Data", shape, "binary", func() {
+			bz, err := d.MarshalBinary()
+			nx := new(types.Data)
+			if err != nil || nx.UnmarshalBinary(bz) != nil {
+				emit("Data", shape, "binary", false, false, true, "err")
+				return
+			}
+			emit("Data", shape, "binary", eqData(nx, d), bytes.Equal(nx.Hash(), d.Hash()) && bytes.Equal(nx.DACommitment(), d.DACommitment()), true, "ok")
+		})
+	}
+
 	{
 		a := &types.Data{Txs: types.Txs{[]byte("x"), []byte("y")}, Metadata: &types.Metadata{ChainID: "c1", Height: 1, Time: 1}}
 		b := &types.Data{Txs: types.Txs{[]byte("x"), []byte("y")}, Metadata: &types.Metadata{ChainID: "c2", Height: 9, Time: 7, LastDataHash: []byte("zz")}}
